@@ -23,8 +23,11 @@ import numpy as np
 from .. import core, iso, catalog, specs
 from . import c10_misc
 from . import c10_surf
+from . import c10_labeled, c10_flood, c10_feat, c10_conv, c10_alloc
+ROUND4 = (c10_labeled, c10_flood, c10_feat, c10_conv, c10_alloc)       # round 4: one module per new model file
 
 ID = 'C10'
+FOUNDATIONS = ['harness.foundation.cscalar']   # ties of the C++ helper functions the model rests on (generated from their text)
 LEVEL = 'other'
 RULE = ('corpus; sweep = every public function with native code behind it x valid calls from harness/catalog.py (1-4 D, 9 integer + 2 float '
         'dtypes, 7 layouts, axis lengths 1..40, structuring elements/kernels/templates smaller than, equal to and larger than the image), each '
@@ -522,6 +525,9 @@ def _model2_line_and_direct(case):
         return c10_misc.line_and_direct(w, q)
     if w in c10_surf.KINDS:          # round 3 (B9 SURF)
         return c10_surf.line_and_direct(w, q)
+    for m4 in ROUND4:
+        if w in m4.KINDS:
+            return m4.line_and_direct(w, q)
     raise core.Infra(f'unknown model2 kind {w}')
 
 
@@ -611,13 +617,20 @@ def _eval_zoomshift_real(case):
                 tags=dict(kind='zoomshift', mode=mode, order=order, ndim=len(shape)))
 
 
+_R4 = {m4.REAL_KIND: m4 for m4 in ROUND4}
+
+
+def _eval_round4(c):
+    return _R4[c['kind']].eval_real(c, SRC)
+
+
 def evaluate(cases):
     out = []
     for c in cases:
         k = c.get('kind', 'sweep')
         out.append(_eval_filter(c) if k == 'filter' else _eval_model(c) if k == 'model' else _eval_model2(c) if k == 'model2' else
                    _eval_zoomshift_real(c) if k == 'zoomshift' else c10_misc.eval_real(c, SRC) if k == 'miscreal' else
-                   c10_surf.evaluate_real(c) if k == 'surfreal' else _eval_sweep(c))
+                   c10_surf.evaluate_real(c) if k == 'surfreal' else _eval_round4(c) if k in _R4 else _eval_sweep(c))
     return out
 
 
@@ -796,6 +809,13 @@ def cases(rng, tier):
         out += c10_misc.model_cases(rng, dict(quick=300, thorough=3000, search=0)[tier])
         out += c10_misc.real_cases(rng, dict(quick=150, thorough=1500, search=0)[tier])
         out += c10_surf.cases(rng, tier)       # round 3 (B9 SURF), appended last: the stream above is unchanged
+        for m4 in ROUND4:                      # round 4, appended last
+            out += m4.model_cases(rng, dict(quick=150, thorough=1500, search=0)[tier])
+            out += m4.real_cases(rng, dict(quick=60, thorough=600, search=0)[tier])
+        # round 4: directed valid calls at the corners the new index models point at (appended last)
+        from .. import directed4
+        for call in directed4.valid_calls(rng):
+            out.append(dict(kind='sweep', call=call))
     return out
 
 
